@@ -957,8 +957,8 @@ class NumpyModel:
     def np_transpose(self, a, axes=None):
         return self.np_asarray(a).transpose(axes)
 
-    def np_ravel(self, a):
-        return self.np_asarray(a).ravel()
+    def np_ravel(self, a, order="C", **kw):
+        return self.call_method(self.np_asarray(a), "ravel", [], {"order": kw.get("order", order)}, None)
 
     def np_squeeze(self, a):
         return self.np_asarray(a).squeeze()
